@@ -606,11 +606,19 @@ class XPathToken(Token[ta.XPathTokenType]):
                     elif isinstance(op2, (str, AbstractQName, AnyURI, bool)):
                         raise TypeError(msg.format(type(op1), type(op2)))
                 case AbstractQName():
-                    if not isinstance(op2, (AbstractQName, UntypedAtomic)):
+                    if isinstance(op2, UntypedAtomic):
+                        # the untyped operand is cast to xs:QName with the statically known
+                        # namespaces (XPath 3.0+), a cast that XPath 2.0 does not permit
+                        yield op1, type(op1).make(op2, parser=self.parser)
+                        continue
+                    elif not isinstance(op2, AbstractQName):
                         raise TypeError(msg.format(type(op1), type(op2)))
                 case UntypedAtomic():
                     if isinstance(op2, UntypedAtomic):
                         yield str(op1), str(op2)
+                        continue
+                    elif isinstance(op2, AbstractQName):
+                        yield type(op2).make(op1, parser=self.parser), op2
                         continue
 
             if not isinstance(op1, UntypedAtomic) and not isinstance(op2, UntypedAtomic):
